@@ -6,12 +6,14 @@
 import Driver.Riff
 import Driver.Player
 import Driver.Seek
+import Driver.Vgm
 open Driver
 
 def allHandlers : List Handler :=
   RiffD.handlers
   ++ PlayerD.handlers
   ++ SeekD.handlers
+  ++ VgmD.handlers
 
 def answerModel (cmd arg : String) : String :=
   match allHandlers.find? (·.cmd == cmd) with
